@@ -231,18 +231,21 @@ def purgePush (body : List Node) (rets : List Ret) : Nat → Nat → St → St
       | _ => σ
     purgePush body rets m (k + 1) σ'
 
+/-- a macro before its creator ran: inputs and UI-node inputs hold the signature defaults -/
+def initMac (args : List Arg) : St :=
+  ⟨fun q p i =>
+    match q, p with
+    | [], .inp => if i < args.length then (args.getD i ⟨.nd, 0⟩).dflt else .nd
+    | [], .uiIn => if i < args.length then (args.getD i ⟨.nd, 0⟩).dflt else .nd
+    | _, _ => .nd⟩
+
 mutual
 /-- the state right after `Cls()` (no keyword arguments) -/
 def build : Node → St
   | .leaf _ srcs => ⟨fun q p i =>
       if q = [] ∧ p = .inp ∧ i < srcs.length then .c 0 else .nd⟩
   | .mac args body rets _ _ =>
-      let σ0 : St := ⟨fun q p i =>
-        match q, p with
-        | [], .inp => if i < args.length then (args.getD i ⟨.nd, 0⟩).dflt else .nd
-        | [], .uiIn => if i < args.length then (args.getD i ⟨.nd, 0⟩).dflt else .nd
-        | _, _ => .nd⟩
-      purgePush body rets args.length 0 (buildBody body 0 σ0)
+      purgePush body rets args.length 0 (buildBody body 0 (initMac args))
 def buildBody : List Node → Nat → St → St
   | [], _, σ => σ
   | n :: ns, j, σ => buildBody ns (j + 1) (σ.graft j (applyConsts n n.srcs 0 (build n)))
